@@ -16,13 +16,29 @@ def make_solver(timeout_ms, seed=0):
     return s
 
 
-def discharge(ex, o, timeout_ms=10000, seed=0, want_model=True):
+def discharge(ex, o, timeout_ms=10000, seed=0, want_model=True, ground=True):
     """sets o.status in {'proved','failed','unknown'}; 'failed' carries a model of the negation"""
     if o.status == 'proved':
         return
     t0 = time.time()
     axioms = ex.m.string_axioms() + list(ex.axioms)
     if ex.uses_psum:
+        # relevance filter (sound: it only drops hypotheses): a goal that does not mention the sum
+        # functions is first tried without the facts and lemmas about sums
+        if not mentions(o.goal, ('psum', 'rpsum')):
+            s0 = make_solver(min(timeout_ms, 3000), seed)
+            for a in axioms:
+                if not mentions(a, ('psum', 'rpsum')):
+                    s0.add(a)
+            for p in o.pc:
+                if not mentions(p, ('psum', 'rpsum')):
+                    s0.add(p)
+            s0.add(z3.Not(o.goal))
+            if s0.check() == z3.unsat:
+                o.status = 'proved'
+                o.solver = 'z3-5.1(api)'
+                o.time = time.time() - t0
+                return
         from . import specfuns
         axioms = axioms + specfuns.psum_axioms(ex.spec)
     s = make_solver(timeout_ms, seed)
@@ -43,7 +59,10 @@ def discharge(ex, o, timeout_ms=10000, seed=0, want_model=True):
         # unknown: try the ground (quantifier-free) part for a candidate counterexample
         o.status = 'unknown'
         o.note = (o.note + ' ' if o.note else '') + 'solver: ' + s.reason_unknown()
-        s2 = make_solver(min(timeout_ms, 5000), seed)
+        if not ground:
+            o.time = time.time() - t0
+            return
+        s2 = make_solver(min(timeout_ms, 3000), seed)
         for a in axioms:
             s2.add(a)
         for p in o.pc:
@@ -121,4 +140,77 @@ def confirm_external(smt2, timeout_s=20):
                 res[name] = 'error: ' + repr(e)[:80]
     finally:
         os.unlink(path)
+    return res
+
+
+def cover_check(ex, pc):
+    """is the entry condition (requires + type invariants) satisfiable?  'sat' / 'unsat' / 'unknown'"""
+    s = make_solver(3000)
+    for a in ex.m.string_axioms():
+        s.add(a)
+    for p in pc:
+        if not has_quant(p):
+            s.add(p)
+    r = s.check()
+    return str(r)
+
+
+def discharge_all(ex, obls, timeout_ms=10000, seed=0, budget_s=240.0, max_retry=6):
+    """first a quick pass (2 s per obligation, no refutation search), then the failures again with the
+    full timeout and the ground-mode refutation - but only the first few: one failure decides the check"""
+    t0 = time.time()
+    quick = min(2000, timeout_ms)
+    pending = []
+    for o in obls:
+        discharge(ex, o, quick, seed, want_model=False, ground=False)
+        if o.status != 'proved':
+            pending.append(o)
+    retried = 0
+    seen_names = set()
+    for o in pending:
+        if time.time() - t0 > budget_s:
+            o.note = (o.note or '') + ' (time budget of the check exhausted before the retry)'
+            continue
+        if o.name in seen_names and retried >= max_retry:
+            continue
+        if retried >= max_retry * 4:
+            continue
+        seen_names.add(o.name)
+        retried += 1
+        o.status = None
+        spent = o.time
+        discharge(ex, o, timeout_ms, seed, want_model=True, ground=True)
+        o.time += spent
+    return pending
+
+
+_MENT = {}
+_MENT_KEEP = []
+
+
+def mentions(t, names):
+    """does term t apply one of the named uninterpreted functions (cached)"""
+    key = (t.get_id(), names)
+    r = _MENT.get(key)
+    if r is not None:
+        return r
+    seen = set()
+    stack = [t]
+    res = False
+    while stack:
+        x = stack.pop()
+        i = x.get_id()
+        if i in seen:
+            continue
+        seen.add(i)
+        if z3.is_quantifier(x):
+            stack.append(x.body())
+            continue
+        if z3.is_app(x):
+            if x.decl().kind() == z3.Z3_OP_UNINTERPRETED and x.decl().name() in names:
+                res = True
+                break
+            stack.extend(x.children())
+    _MENT[key] = res
+    _MENT_KEEP.append(t)
     return res
